@@ -2634,7 +2634,7 @@ func (r Stack) IsEqual(o any) error {
 	// handle stack/stack-alias assertion and
 	// exit immediately if it fails due to a
 	// bad type, or uninitialized input for o.
-	if s, ok := stackTypeAliasConverter(o); ok {
+	if s, ok := stackTypeAliasConverter(o); ok && s.IsInit() {
 		if sc, _ := r.config(); sc.eqf != nil {
 			// use the user-authored closure assertion
 			// with the original instance
